@@ -746,16 +746,18 @@ func Corpus() []Input {
 
 func Gen(r *core.Rng, tier string) ([]core.In[Input], bool) {
 	var ins []core.In[Input]
+	// the timed operator-level scenarios first: a violation is then reported at the level the
+	// property speaks about (executions of a hook that started)
+	for _, tc := range TimedCorpus() {
+		tc := tc
+		ins = append(ins, core.In[Input]{Input: Input{Timed: &tc}, Stream: "corpus"})
+	}
 	for _, c := range Corpus() {
 		ins = append(ins, core.In[Input]{Input: c, Stream: "corpus"})
 	}
 	for _, op := range OpCorpus() {
 		op := op
 		ins = append(ins, core.In[Input]{Input: Input{Op: &op}, Stream: "corpus"})
-	}
-	for _, tc := range TimedCorpus() {
-		tc := tc
-		ins = append(ins, core.In[Input]{Input: Input{Timed: &tc}, Stream: "corpus"})
 	}
 	// operator-level scenarios (their own PRNG stream, so that the limiter-level stream is the
 	// one it always was)
